@@ -40,7 +40,7 @@ func initInt() {
 
 			switch s := self.SafeAsReference().(type) {
 			case *value.BigInt:
-				return value.Ref(s.Increment()), value.Undefined
+				return s.Increment().Normalize(), value.Undefined
 			}
 
 			panic(fmt.Sprintf("expected SmallInt or BigInt, got: %s", self.Inspect()))
@@ -518,7 +518,7 @@ func initInt() {
 
 			switch s := self.SafeAsReference().(type) {
 			case *value.BigInt:
-				return value.Ref(s.Negate()), value.Undefined
+				return s.Negate().Normalize(), value.Undefined
 			}
 
 			panic(fmt.Sprintf("expected SmallInt or BigInt, got: %s", self.Inspect()))
